@@ -1179,7 +1179,7 @@ int main(int argc, char **argv)
         {"graph", graphCount, runGraph, [](uint64_t i) { return graphAt(i).show(); }},
         {"perm", permCount, runPerm, [](uint64_t i) { json j = permAt(i).show(); j["orders"] = "all permutations of the n*n ordered pairs"; return j; }},
         // {maxDepth, maxStates} for the quick and the thorough tier (VERIF_TIER); --depth=N overrides
-        machineFamily<IdWorld<3>>("ids3", ExploreLimits{6, 2000000}, ExploreLimits{8, 2000000}),
+        machineFamily<IdWorld<3>>("ids3", ExploreLimits{5, 2000000}, ExploreLimits{6, 2000000}),
         machineFamily<IdWorld<4>>("ids4", ExploreLimits{4, 2000000}, ExploreLimits{5, 2000000}),
         machineFamily<IdWorld<5, true>>("life5", ExploreLimits{4, 2000000}, ExploreLimits{5, 2000000}),
         {"selfcheck", [] { return uint64_t(SELF.size()); }, runSelf, [](uint64_t i) { return json{{"word_bits", SELF.at(i).W}, {"base", hex(SELF.at(i).B)}, {"bytes", SELF.at(i).S}}; }},
